@@ -19,5 +19,6 @@ def handle (j : Json) : Json :=
       ("q_chk", optNatJ (quorum_threshold_chk n)),
       ("s_chk", optNatJ (subquorum_threshold_chk n))]
 
-def main : IO Unit := runPure handle
 end Driver.C07
+
+def main : IO Unit := Driver.runPure Driver.C07.handle
